@@ -12,7 +12,7 @@ theorem Frame.setDirty (p : Program) (s : St) (dirty' : Key → Key → Bool) :
 
 /-- the clean path of `repair_query`: every recorded callee has been found unchanged -/
 theorem clean_spec {p : Program} (wf : WF p) {s1 : St} (i1 : Inv p s1) {k : Key} {n : Node}
-    (k1 : s1.nodes k = some n) (moved : Bool) (cl : List Key)
+    (k1 : s1.nodes k = some n) (hnv : n.lastVerified ≠ s1.epoch) (moved : Bool) (cl : List Key)
     (hall : ∀ d o, (d, o) ∈ n.deps → DepOK s1 n moved d o)
     (hw : moved = true → ∃ d o nd, (d, o) ∈ n.deps ∧ s1.nodes d = some nd ∧ nd.kind ≠ .firewall ∧
       nd.tfc ≠ n.seen d) :
@@ -22,17 +22,21 @@ theorem clean_spec {p : Program} (wf : WF p) {s1 : St} (i1 : Inv p s1) {k : Key}
   intro s2
   -- the node first, then the dirty set
   have key : ∃ n', cleanNode s1 n moved = n' ∧ n'.value = n.value ∧ n'.deps = n.deps ∧
-      n'.lastVerified = s1.epoch ∧ Inv p (setNode s1 k n') ∧ Frame p s1 (setNode s1 k n') ∧
+      n'.lastVerified = s1.epoch ∧ n'.pendingBP = n.pendingBP ∧ Inv p (setNode s1 k n') ∧ Frame p s1 (setNode s1 k n') ∧
       ∀ d o, (d, o) ∈ n.deps → ∃ nd, (setNode s1 k n').nodes d = some nd ∧ nd.value = o ∧
         (nd.kind ≠ .firewall → nd.tfc = n'.seen d) ∧ Solid (setNode s1 k n') d := by
     have depLt : ∀ d o, (d, o) ∈ n.deps → d ≠ k := fun d o hm => by
       have := (i1.down k n k1 d o hm).1; komega
     cases moved with
     | true =>
-      obtain ⟨ia, fa, sa⟩ := i1.setMoved k1
+      have hkp : n.kind ≠ .projection := by
+        intro hkp
+        obtain ⟨wd, wo, wnd, wm, wnode, wk, _⟩ := hw rfl
+        exact wk (i1.pjFw k n k1 hkp wd wo wnd wm wnode)
+      obtain ⟨ia, fa, sa⟩ := i1.setMoved k1 hkp hnv
         (fun d o hm => by obtain ⟨nd, a, b, c, _⟩ := hall d o hm; exact ⟨nd, a, b, c⟩) (hw rfl)
       refine ⟨{ n with lastVerified := s1.epoch, tfc := recomputeTfc s1 n.deps, seen := tfcOf s1 },
-        by simp [cleanNode], rfl, rfl, rfl, ia, fa, ?_⟩
+        by simp [cleanNode], rfl, rfl, rfl, rfl, ia, fa, ?_⟩
       intro d o hm
       obtain ⟨nd, hnd, hvd, _, _⟩ := hall d o hm
       refine ⟨nd, by simp only [setNode, if_neg (depLt d o hm)]; exact hnd, hvd, fun _ => ?_, sa d o hm⟩
@@ -47,13 +51,13 @@ theorem clean_spec {p : Program} (wf : WF p) {s1 : St} (i1 : Inv p s1) {k : Key}
       have hsub : ∀ d o, (d, o) ∈ n.deps → Solid s1 d := fun d o hm => by
         obtain ⟨_, _, _, c, _⟩ := hall d o hm; exact c
       have ia := i1.setSame (n' := { n with lastVerified := s1.epoch }) k1 rfl rfl rfl rfl rfl
-        (Or.inr ⟨rfl, hval, hsub⟩)
-      have fa := Frame.setSame (p := p) (n' := { n with lastVerified := s1.epoch }) k1 rfl rfl rfl rfl rfl rfl
-      refine ⟨{ n with lastVerified := s1.epoch }, by simp [cleanNode], rfl, rfl, rfl, ia, fa, ?_⟩
+        (Or.inr ⟨rfl, hval, hsub⟩) (Or.inl rfl)
+      have fa := Frame.setSame (p := p) (n' := { n with lastVerified := s1.epoch }) k1 rfl rfl rfl rfl rfl rfl id
+      refine ⟨{ n with lastVerified := s1.epoch }, by simp [cleanNode], rfl, rfl, rfl, rfl, ia, fa, ?_⟩
       intro d o hm
       obtain ⟨nd, hnd, hvd, hacc⟩ := hval d o hm
       exact ⟨nd, by simp only [setNode, if_neg (depLt d o hm)]; exact hnd, hvd, hacc, fa.solid (hsub d o hm)⟩
-  obtain ⟨n', hn', hv', hd', hlv', ia, fa, hrow⟩ := key
+  obtain ⟨n', hn', hv', hd', hlv', hpb', ia, fa, hrow⟩ := key
   have e2 : s2 = { setNode s1 k n' with dirty := fun a b => if a = k ∧ b ∈ cl then false else s1.dirty a b } := by
     simp only [s2, hn']; rfl
   have i2 : Inv p s2 := by
@@ -79,10 +83,18 @@ theorem clean_spec {p : Program} (wf : WF p) {s1 : St} (i1 : Inv p s1) {k : Key}
     rw [e2]; exact fa.trans (Frame.setDirty p _ _)
   have hk2 : s2.nodes k = some n' := by rw [e2]; simp [setNode]
   refine ⟨i2, f2, ?_, ?_, n', hk2, hv', by rw [hlv', f2.epoch]⟩
-  · intro x hx
-    rw [e2]
-    simp only [setNode]
-    rw [if_neg (by komega)]
+  · rw [e2]
+    refine ⟨?_, ?_⟩
+    · intro x hx
+      simp only [setNode]
+      rw [if_neg (by komega)]
+    · intro x n0 h0 hp0
+      simp only [setNode]
+      by_cases e : x = k
+      · subst e
+        rw [k1] at h0; cases h0
+        exact ⟨n', if_pos rfl, by rw [hpb']; exact hp0⟩
+      · exact ⟨n0, by rw [if_neg e]; exact h0, hp0⟩
   · obtain ⟨n2, hn2, hc⟩ := solid_correct wf i2 (i2.solid k n' hk2 (by rw [hlv', f2.epoch]))
     rw [hk2] at hn2; cases hn2
     rw [← f2.cur, hc, hv']
@@ -95,7 +107,7 @@ def AccOK (p : Program) (k : Key) (s : St) (a : Acc) : Prop :=
     ∀ d o, (d, o) ∈ a.deps →
       d < k ∧ cur p s d = some o ∧ ∃ nd, s.nodes d = some nd ∧ nd.value = o ∧
         nd.lastVerified = s.epoch ∧ a.seen d = nd.tfc ∧ (nd.kind = .firewall → d ∈ a.tfc) ∧
-        (nd.kind = .normal → ∀ f, f ∈ nd.tfc → f ∈ a.tfc)
+        (nd.kind = .normal ∨ nd.kind = .projection → ∀ f, f ∈ nd.tfc → f ∈ a.tfc)
 
 theorem AccOK.nil (p : Program) (k : Key) (s : St) : AccOK p k s {} := by
   refine ⟨by simp, ?_, ?_⟩
@@ -107,7 +119,7 @@ theorem AccOK.frame {p : Program} {k : Key} {s s' : St} {a : Acc} (h : AccOK p k
   refine ⟨h.1, h.2.1, ?_⟩
   intro d o hm
   obtain ⟨h1, h2, nd, hnd, hv, hver, hse, hfw, hnm⟩ := h.2.2 d o hm
-  obtain ⟨nd', hnd', a1, _, a3, _, a5⟩ := f.keep d nd (inv.solid d nd hnd hver) hnd
+  obtain ⟨nd', hnd', a1, _, a3, _, a5, _⟩ := f.keep d nd (inv.solid d nd hnd hver) hnd
   obtain ⟨nd'', hnd'', hver'⟩ := f.verified ⟨nd, hnd, hver⟩
   rw [hnd'] at hnd''; cases hnd''
   exact ⟨h1, by rw [f.cur]; exact h2, nd', hnd', by rw [a1, hv], hver', by rw [a3]; exact hse,
@@ -131,12 +143,12 @@ theorem observe_spec {p : Program} {k : Key} {s : St} (inv : Inv p s) {a : Acc} 
       d' < k ∧ cur p s d' = some o' ∧ ∃ nd', s.nodes d' = some nd' ∧ nd'.value = o' ∧
         nd'.lastVerified = s.epoch ∧ (observe s a d v).seen d' = nd'.tfc ∧
         (nd'.kind = .firewall → d' ∈ (observe s a d v).tfc) ∧
-        (nd'.kind = .normal → ∀ f, f ∈ nd'.tfc → f ∈ (observe s a d v).tfc) := by
+        (nd'.kind = .normal ∨ nd'.kind = .projection → ∀ f, f ∈ nd'.tfc → f ∈ (observe s a d v).tfc) := by
     intro d' o' hm
     have base : d' < k ∧ cur p s d' = some o' ∧ ∃ nd', s.nodes d' = some nd' ∧ nd'.value = o' ∧
         nd'.lastVerified = s.epoch ∧ (d' ≠ d → a.seen d' = nd'.tfc) ∧
         (nd'.kind = .firewall → d' = d ∨ d' ∈ a.tfc) ∧
-        (nd'.kind = .normal → d' = d ∨ ∀ f, f ∈ nd'.tfc → f ∈ a.tfc) := by
+        (nd'.kind = .normal ∨ nd'.kind = .projection → d' = d ∨ ∀ f, f ∈ nd'.tfc → f ∈ a.tfc) := by
       rcases hm with ⟨rfl, rfl⟩ | hm
       · exact ⟨hd, hc, nd, hnd, hv, hver, fun h => absurd rfl h, fun _ => Or.inl rfl, fun _ => Or.inl rfl⟩
       · obtain ⟨a1, a2, nd', a3, a4, a5, a6, a7, a8⟩ := h.2.2 d' o' hm
@@ -155,7 +167,7 @@ theorem observe_spec {p : Program} {k : Key} {s : St} (inv : Inv p s) {a : Acc} 
     · intro hk f hf
       rcases b8 hk with e | h'
       · subst e; rw [hnd] at b3; cases b3
-        exact (htfc f).2 (Or.inl (by rw [hfront, hk]; simpa [contrib] using hf))
+        exact (htfc f).2 (Or.inl (by rw [hfront]; rcases hk with hk | hk <;> rw [hk] <;> simpa [contrib] using hf))
       · exact (htfc f).2 (Or.inr (h' f hf))
   by_cases hany : a.deps.any (fun e => e.1 == d) = true
   · have hdeps : (observe s a d v).deps = a.deps := by simp [observe, hany]
@@ -270,5 +282,76 @@ theorem runProg_spec {p : Program} {q : Q} {k : Key} (hq : QSpec p q k) :
       intro rec hrec
       simp only [evalProg, hvals rec (fun d o hm => hrec d o (sub2 _ hm))]
       exact tr2 rec hrec
+
+-- ------------------------------------------------------------------ which keys an executor records
+
+theorem observe_keys {s : St} {a : Acc} {d : Key} {v : Val} {e : Key × Val}
+    (h : e ∈ (observe s a d v).deps) : e ∈ a.deps ∨ e.1 = d := by
+  simp only [observe] at h
+  split at h
+  · exact Or.inl h
+  · rw [List.mem_append, List.mem_singleton] at h
+    rcases h with h | h
+    · exact Or.inl h
+    · subst h; exact Or.inr rfl
+
+theorem askMany_reads (q : Q) (P : Key → Prop) :
+    ∀ (ks : List Key) (a : Acc) (s : St), (∀ d, d ∈ ks → P d) → (∀ e, e ∈ a.deps → P e.1) →
+      ∀ r, askMany q ks a s = .ok r → ∀ e, e ∈ r.2.1.deps → P e.1 := by
+  intro ks
+  induction ks with
+  | nil => intro a s _ ha r h; simp only [askMany] at h; cases h; exact ha
+  | cons d rest ih =>
+    intro a s hk ha r h
+    simp only [askMany] at h
+    cases hq : q d s with
+    | error e => rw [hq] at h; cases h
+    | ok r1 =>
+      obtain ⟨v, s1⟩ := r1
+      rw [hq] at h
+      simp only at h
+      cases hr : askMany q rest (observe s1 a d v) s1 with
+      | error e => rw [hr] at h; cases h
+      | ok r2 =>
+        obtain ⟨vs, a2, s2⟩ := r2
+        rw [hr] at h
+        cases h
+        refine ih (observe s1 a d v) s1 (fun d' hd' => hk d' (List.mem_cons_of_mem _ hd')) ?_ (vs, a2, s2) hr
+        intro e he
+        rcases observe_keys he with he | he
+        · exact ha e he
+        · rw [he]; exact hk d (List.mem_cons_self ..)
+
+/-- every recorded callee of a run is a key the executor can ask -/
+theorem runProg_reads (q : Q) (P : Key → Prop) :
+    ∀ (prog : Prog) (a : Acc) (s : St), ProgAll P prog → (∀ e, e ∈ a.deps → P e.1) →
+      ∀ r, runProg q prog a s = .ok r → ∀ e, e ∈ r.2.1.deps → P e.1 := by
+  intro prog
+  induction prog with
+  | ret v => intro a s _ ha r h; simp only [runProg] at h; cases h; exact ha
+  | ask d cont ih =>
+    intro a s hp ha r h
+    obtain ⟨hd, hc⟩ := hp
+    simp only [runProg] at h
+    cases hq : q d s with
+    | error e => rw [hq] at h; cases h
+    | ok r1 =>
+      obtain ⟨v, s1⟩ := r1
+      rw [hq] at h
+      refine ih v (observe s1 a d v) s1 (hc v) ?_ r h
+      intro e he
+      rcases observe_keys he with he | he
+      · exact ha e he
+      · rw [he]; exact hd
+  | askAll ks cont ih =>
+    intro a s hp ha r h
+    obtain ⟨hd, hc⟩ := hp
+    simp only [runProg] at h
+    cases hq : askMany q ks a s with
+    | error e => rw [hq] at h; cases h
+    | ok r1 =>
+      obtain ⟨vs, a1, s1⟩ := r1
+      rw [hq] at h
+      exact ih vs a1 s1 (hc vs) (askMany_reads q P ks a s hd ha _ hq) r h
 
 end Qbice.CoreFw
